@@ -6,12 +6,60 @@ use kismet_vfs::kernel::Tape;
 
 pub struct C09;
 
+/// "put onto an existing key leaves content and queue position unchanged" when
+/// the key came into existence under the putting operation's feet: 2-3
+/// participants on stacked caches (read-only level pre-populated, so that
+/// lookups promote) and on plain/sharded ones; no eviction, no faults.
+fn concurrent_puts(tape: &mut Tape, ctx: &RunCtx) -> RunOut {
+    use crate::conc::*;
+    use kismet_vfs::kernel::DrawPolicy;
+    let cfg = ConcCfg {
+        fronts: vec![0, 1, 2, 2],
+        capacities: vec![1_000_000],
+        max_parts: 3,
+        max_ops: 3,
+        max_keys: 2,
+        ops: vec!["put", "put", "ensure", "gou", "get", "set"],
+        adversary: false,
+        stale_mode: false,
+        freeze: false,
+        crash: false,
+        fire: vec![DrawPolicy::Const(u64::MAX)],
+        allow_shared_handle: true,
+        missing_dirs: false,
+        preexisting: true,
+        clock_small: true,
+        sampled_faults: false,
+        clock_jump: false,
+        debris: false,
+        focus: 0,
+    };
+    let run = run_conc(tape, &cfg, ctx.detail);
+    let mut out = RunOut::default();
+    out.sig = run.sig;
+    out.steps = run.steps;
+    out.sim_ns = run.sim_ns;
+    out.count("concurrent_runs", 1);
+    // a race actually happened: some publication by link found the key there
+    let eexist = run.trace.iter().filter(|t| t.kind == kismet_vfs::kernel::K::Link && t.err == libc::EEXIST).count() as u64;
+    out.count("probe:link_eexist", eexist);
+    out.nontrivial = eexist > 0;
+    if let Some(mut v) = putlike_overwrite(&run) {
+        v.detail = describe(&run, 200);
+        out.violation = Some(v);
+    }
+    if ctx.detail {
+        out.sample = Some(crate::json::J::obj().set("mode", "concurrent puts").set("scenario", run.desc.clone()));
+    }
+    out
+}
+
 impl Check for C09 {
     fn id(&self) -> &'static str {
         "C09"
     }
     fn rule(&self) -> String {
-        "seeded sequential histories (10-45 ops over 2-8 keys; set/put/get with and without the application reading/touch/ensure/get_or_update) on plain, sharded, stacked and read-only front-ends held by 1-2 processes, eviction out of play in 3/4 of the runs, under every drawn combination of atime policy {strict, relatime, noatime} x timestamp granularity {1ns,1us,1s,2s} x clock regime {ties, us, ms, seconds, mixed}; after every operation each entry's (mtime, atime>=mtime) is compared with the abstract queue model (read => marked, rank and content unchanged; write => newest rank in its directory, unmarked) and no other entry may change. Non-trivial = the history contains at least one read-type hit and one write; distinct = hash of configuration and the (operation, handle kind, key, outcome) sequence".to_string()
+        "seeded sequential histories (10-45 ops over 2-8 keys; set/put/get with and without the application reading/touch/ensure/get_or_update) on plain, sharded, stacked and read-only front-ends held by 1-2 processes, eviction out of play in 3/4 of the runs, under every drawn combination of atime policy {strict, relatime, noatime} x timestamp granularity {1ns,1us,1s,2s} x clock regime {ties, us, ms, seconds, mixed}; after every operation each entry's (mtime, atime>=mtime) is compared with the abstract queue model (read => marked, rank and content unchanged; write => newest rank in its directory, unmarked) and no other entry may change; one run in 50 is a concurrent run (2-3 participants putting, ensuring, promoting and setting the same keys on plain, sharded and stacked caches, read-only level pre-populated) in which no operation with insert-if-absent semantics may replace an entry that exists at the instant it publishes. Non-trivial = the history contains at least one read-type hit and one write; distinct = hash of configuration and the (operation, handle kind, key, outcome) sequence".to_string()
     }
     fn runs(&self, tier: Tier) -> u64 {
         match tier {
@@ -20,6 +68,9 @@ impl Check for C09 {
         }
     }
     fn run(&self, tape: &mut Tape, ctx: &RunCtx) -> RunOut {
+        if tape.draw(50) == 49 {
+            return concurrent_puts(tape, ctx);
+        }
         let no_eviction = tape.draw(4) != 3;
         let hp = HistParams {
             max_dirs: 2,
